@@ -6,6 +6,7 @@ Model: SpecModel/Url/Url.lean (`normalizeURL`, `Ref.new` = `jsonreference.New` o
 The JSON / gob codec part of C13 lives with the codec models. Statements only here.
 -/
 import SpecModel.Url.Lemmas
+import SpecModel.Codec.UrlIdem
 
 namespace SpecModel.Props.C13
 open SpecModel.Url
@@ -55,6 +56,42 @@ theorem ref_determined_by_url (u v : URL) (h : (Ref.new u).url = (Ref.new v).url
   rw [this]
 
 example : (Ref.new ⟨"HTTP", "h.com:80", "/a", "", ""⟩).url = (Ref.new ⟨"http", "H.com", "//a", "", ""⟩).url := by
+  decide
+
+/-! ### text level: parse → print is idempotent
+
+`Codec.urlString` models `NewRef(s).String()` (url.Parse, jsonreference normalisation, URL.String) on the tame
+grammar of Codec/Url.lean, and is tied to the code by the `refprint` correspondence of this property (and, for the
+`$ref` / `$schema` members of whole documents, by the `norm` correspondence of the codec properties). -/
+
+open SpecModel.Codec in
+/-- Printing a parsed reference gives a text that parses and prints as itself: whatever `s` is (escapes, blanks,
+non-ASCII, with or without authority and fragment), if it parses, its printed form is a fixed point. -/
+theorem printing_is_idempotent {s t : String} (h : urlString s = .ok t) : urlString t = .ok t :=
+  urlString_idem h
+
+/-- one more parse/print round on a result -/
+def again : SpecModel.Codec.UrlRes → SpecModel.Codec.UrlRes
+  | .ok x => SpecModel.Codec.urlString x
+  | r => r
+
+open SpecModel.Codec in
+/-- hence a printed reference survives any number of further parse/print rounds (the JSON and gob codecs of `Ref`
+carry exactly this text) -/
+theorem printed_text_is_stable {s t : String} (h : urlString s = .ok t) (n : Nat) :
+    Nat.repeat again n (.ok t) = .ok t := by
+  induction n with
+  | zero => rfl
+  | succ k ih =>
+    show again (Nat.repeat again k (.ok t)) = .ok t
+    rw [ih]; exact urlString_idem h
+
+open SpecModel.Codec in
+example : urlString "http://h.example/a b/é.json#/definitions/x y" =
+    .ok "http://h.example/a%20b/%C3%A9.json#/definitions/x%20y" := by decide
+
+open SpecModel.Codec in
+example : urlString "../models/tree node.json#/definitions/a~1b" = .ok "../models/tree%20node.json#/definitions/a~1b" := by
   decide
 
 end SpecModel.Props.C13
